@@ -1,7 +1,8 @@
 From Coq Require Import List NArith ZArith Bool Sorted Permutation.
 From V.gen Require Consts DialErrors.
-From V.C10 Require Import Model Proofs.
-From V.C10 Require ErrNames.
+From V.C10 Require Import Model IpClass Proofs.
+From V.C10 Require ErrNames KadStore.
+From V.C14 Require AddrModel.
 Import ListNotations.
 From V.C10 Require Import Properties.
 Check (C10_bound :
@@ -127,18 +128,19 @@ Check (C10_dial_order_validator_sound :
 Check (C10_dial_order_validator_complete :
   forall limit s, NoDup (keys s) -> addresses_ok limit s (addresses limit s) = true).
 Check (C10_dial_tries :
-  forall c k st peer outcome errs tcp ws t w st',
-  step c k st (ODial peer outcome errs tcp ws) = (st', RDial (DTried t w)) ->
+  forall c k st peer outcome errs tcp ws qu t w q st',
+  step c k st (ODial peer outcome errs tcp ws qu) = (st', RDial (DTried t w q)) ->
   let s := get_or_empty peer (bk st) in
   exists limit,
     free_capacity c st (length s) = Some limit /\
     peer <> local_peer c /\
-    t = with_scores s tcp /\ w = with_scores s ws /\
-    addresses_ok limit s (merge_desc t w) = true /\
-    Permutation (merge_desc t w) (t ++ w) /\
+    t = with_scores s tcp /\ w = with_scores s ws /\ q = with_scores s qu /\
+    addresses_ok limit s (merge_desc (merge_desc t w) q) = true /\
+    Permutation (merge_desc (merge_desc t w) q) (t ++ w ++ q) /\
     Forall (fun a => In a (keys s) /\ names peer a = true /\ route c a = TTcp /\ enabled c TTcp = true) tcp /\
     Forall (fun a => In a (keys s) /\ names peer a = true /\ route c a = TWs /\ enabled c TWs = true) ws /\
-    st' = set_bk st (put peer (dial_outcome k s peer outcome errs tcp ws) (bk st))).
+    Forall (fun a => In a (keys s) /\ names peer a = true /\ route c a = TQuic /\ enabled c TQuic = true) qu /\
+    st' = set_bk st (put peer (dial_outcome k s peer outcome errs tcp ws qu) (bk st))).
 Check (C10_free_capacity :
   forall c st n limit,
   free_capacity c st n = Some limit ->
@@ -147,11 +149,12 @@ Check (C10_free_capacity :
   | None => limit = n
   end).
 Check (C10_dial_all_fail :
-  forall k s peer errs tcp ws b,
-  NoDup (keys s) -> NoDup (tcp ++ ws) -> (forall a, In a (tcp ++ ws) -> In a (keys s)) ->
+  forall k s peer errs tcp ws qu b,
+  NoDup (keys s) -> NoDup (tcp ++ ws ++ qu) -> (forall a, In a (tcp ++ ws ++ qu) -> In a (keys s)) ->
   (forall e, error_score k e <> 0%Z) ->
-  find b (dial_outcome k s peer 0 errs tcp ws) =
-    match lookup_err b (tag_errs errs 0 tcp ++ tag_errs errs (length tcp) ws) with
+  find b (dial_outcome k s peer 0 errs tcp ws qu) =
+    match lookup_err b (tag_errs errs 0 tcp ++ tag_errs errs (length tcp) ws ++
+                        tag_errs errs (length tcp + length ws) qu) with
     | Some e => Some (error_score k e)
     | None => find b s
     end).
@@ -242,6 +245,55 @@ Check (C10_saturation :
 Check (C10_scores_in_i32 :
   forall c h p s a z,
   Forall op_i32 h -> get p (bk (final c default_scores h)) = Some s -> In (a, z) s -> in_i32 z).
+Check (C10_ip_classes_exact :
+  (forall ip, is_unspec (classify4 ip) = v4_unspecified ip /\ is_loop (classify4 ip) = v4_loopback ip /\
+              is_glob (classify4 ip) = v4_global ip) /\
+  (forall ip, is_unspec (classify6 ip) = v6_unspecified ip /\ is_loop (classify6 ip) = v6_loopback ip /\
+              is_glob (classify6 ip) = v6_global ip)).
+Check (C10_ip_predicates_concrete :
+  (forall ip, first_ok (comp_of_ip4 ip) = negb (v4_unspecified ip)) /\
+  (forall ip, first_ok (comp_of_ip6 ip) = negb (v6_unspecified ip)) /\
+  (forall ip rest, is_global (comp_of_ip4 ip :: rest) = v4_global ip) /\
+  (forall ip rest, is_global (comp_of_ip6 ip :: rest) = v6_global ip) /\
+  (forall v a port w l lport rest,
+     local_match (ipaddr_of v a) port (ip_comp w l :: Tcp lport :: rest) =
+       N.eqb port lport &&
+       ((Bool.eqb w v && N.eqb l a) ||
+        (conc_unspecified w l && conc_loopback v a) ||
+        (conc_loopback w l && conc_loopback v a)))).
+Check (C10_mapped_ranges :
+  forall c id, (id < 65536)%N -> classify4 (mapped4 c id) = c /\ classify6 (mapped6 c id) = c).
+Check (C10_ip_network_version :
+  DialErrors.ip_network_version = ErrNames.ip_network_0_4_1).
+Check (C10_kad_embedding :
+  forall p,
+    (forall a b, KadStore.emb p a = KadStore.emb p b -> a = b) /\
+    (forall a, is_global (KadStore.emb p a) = AddrModel.is_global a) /\
+    (forall a, with_peer p (KadStore.emb p a) = KadStore.emb p (AddrModel.with_p2p a))).
+Check (C10_kad_store_is_instance :
+  forall p n s a sc v,
+    (I32_MIN <= sc + AddrModel.S_BONUS <= I32_MAX)%Z ->
+    insert (KadStore.kad_scores n) (KadStore.emb_store p s) (KadStore.emb p a) sc (option_map (KadStore.emb p) v) =
+      (KadStore.emb_store p (fst (AddrModel.sinsert n s a sc v)),
+       KadStore.emb_res p (snd (AddrModel.sinsert n s a sc v)))).
+Check (C10_kad_addresses_is_instance :
+  KadStore.kad_scores AddrModel.CAP = default_scores /\
+  forall p limit s,
+    addresses limit (KadStore.emb_store p s) = KadStore.emb_store p (AddrModel.reported limit s)).
+Check (C10_kad_evict_min :
+  forall (p : N) n s a sc v w,
+    (I32_MIN <= sc + AddrModel.S_BONUS <= I32_MAX)%Z -> NoDup (map fst s) ->
+    snd (AddrModel.sinsert n s a sc v) = AddrModel.IEvicted w ->
+    exists m, AddrModel.sfind a s = None /\ (n <= length s)%nat /\ AddrModel.sfind w s = Some m /\
+              (forall b z, In (b, z) s -> (m <= z)%Z) /\
+              AddrModel.sfind w (fst (AddrModel.sinsert n s a sc v)) = None /\
+              length (fst (AddrModel.sinsert n s a sc v)) = length s).
+Check (C10_kad_rescore_exact :
+  forall (p : N) n s a sc v z0,
+    (I32_MIN <= sc + AddrModel.S_BONUS <= I32_MAX)%Z -> AddrModel.sfind a s = Some z0 -> sc <> 0%Z ->
+    snd (AddrModel.sinsert n s a sc v) = AddrModel.IUpdated /\
+    AddrModel.sfind a (fst (AddrModel.sinsert n s a sc v)) = Some sc /\
+    forall b, b <> a -> AddrModel.sfind b (fst (AddrModel.sinsert n s a sc v)) = AddrModel.sfind b s).
 Check (C10_public_addresses_local :
   forall c k h a, In a (pubs (final c k h)) ->
     a <> [] /\ last a (Other 0) = P2p (local_peer c)).
